@@ -31,8 +31,8 @@ MCGoalMixed == [t \\in {1, 2, 3} |-> IF t = 1 THEN "T" ELSE IF t = 2 THEN "G1" E
 MCGoalSame == [t \\in {1, 2, 3} |-> "T"]
 ====
 """
-PAIRS = [('note', 'note'), ('words', 'note'), ('measure', 'barline'), ('harmony', 'words'), ('barline', 'measure'),
-         ('note', 'words'), ('words', 'words'), ('measure', 'measure'), ('harmony', 'harmony'), ('barline', 'note')]
+PAIRS = [('note', 'note'), ('measure', 'measure'), ('words', 'note'), ('barline', 'barline'), ('harmony', 'words'), ('measure', 'barline'),
+         ('barline', 'measure'), ('note', 'words'), ('words', 'words'), ('harmony', 'harmony'), ('barline', 'note')]
 
 
 def sched(args, timeout=3600):
@@ -64,7 +64,7 @@ def run(tier, replay=None):
         if design == 'publish-then-fill' and not r['violated']:
             raise tlc.TLCError('negative control failed: publish-then-fill should violate ReturnsFull / PublishedComplete')
     # ---- GEN: profile, choose pre-emption lines
-    pairs = PAIRS[:5] if tier == 'quick' else PAIRS
+    pairs = PAIRS[:6] if tier == 'quick' else PAIRS
     json.dump([dict(a=a, b=b) for a, b in pairs], open(os.path.join(wd, 'pairs.json'), 'w'))
     sched([os.path.join(wd, 'pairs.json'), os.path.join(wd, 'prof.ndjson'), 'profile', '1'])
     prof = [json.loads(l) for l in open(os.path.join(wd, 'prof.ndjson'))]
